@@ -1,6 +1,59 @@
 """C18 facts: the switches of `_format_t`, the pickling tables of TType, and the shape of
-Path's sequence methods, read from the AST of glom/core.py.  -> lean/Glom/Generated/C18Facts.lean"""
+Path's sequence methods, read from the AST of glom/core.py; the size limits of the live
+`_BBRepr` instance `bbrepr` is bound to (every literal argument in a T repr is printed by it).
+-> lean/Glom/Generated/C18Facts.lean"""
 import ast
+
+
+def bbrepr_facts(ctx, tree):
+    """(names of the int attributes of a stock reprlib.Repr(), int attributes of the instance behind
+    glom.core.bbrepr, its fillvalue, whether bbrepr is that instance's reprlib.Repr.repr and
+    _BBRepr overrides nothing but __init__ and a repr1 that defers to Repr.repr1)"""
+    import reprlib
+    P = ctx['P']
+    is_int = lambda v: isinstance(v, int) and not isinstance(v, bool)
+    stock = sorted(k for k, v in vars(reprlib.Repr()).items() if is_int(v))
+    table, fill, ok = [], '', False
+    try:
+        import glom.core as core
+        # recursive_repr()(_BBRepr().repr): the bound method is a closure cell of the wrapper
+        fn = getattr(core.bbrepr, '__wrapped__', None)
+        if fn is None:
+            for cell in (getattr(core.bbrepr, '__closure__', None) or ()):
+                try:
+                    v = cell.cell_contents
+                except ValueError:
+                    continue
+                if hasattr(v, '__self__') and hasattr(v, '__func__'):
+                    fn = v
+        inst = getattr(fn, '__self__', None)
+        if inst is None or not isinstance(inst, reprlib.Repr):
+            P.add('bbrepr is not a wrapped bound method of a reprlib.Repr instance')
+        else:
+            table = sorted((k, max(0, v)) for k, v in vars(inst).items() if is_int(v))
+            fill = inst.fillvalue if isinstance(getattr(inst, 'fillvalue', None), str) else ''
+            cls = type(inst)
+            own = sorted(k for k in vars(cls) if k not in ('__module__', '__doc__', '__qualname__',
+                                                           '__firstlineno__', '__static_attributes__'))
+            shape = getattr(fn, '__func__', None) is reprlib.Repr.repr and own == ['__init__', 'repr1']
+            r1 = ctx['find_def'](tree, 'repr1', cls='_BBRepr')
+            if r1 is None:
+                P.add('_BBRepr.repr1 not found')
+                shape = False
+            else:
+                src = ast.unparse(r1)
+                rets = [ast.unparse(n.value) for n in ast.walk(r1) if isinstance(n, ast.Return) and n.value]
+                # what is printed is Repr.repr1's text; only a text starting with '<' is replaced
+                # (by the builtin's name), and only a re-entered object prints '...'
+                if not ('ret = Repr.repr1(self, x, level)' in src
+                        and "if not ret.startswith('<'):\n        return ret" in src
+                        and sorted(rets) == sorted(["'...'", 'ret', '_BUILTIN_ID_NAME_MAP.get(id(x), ret)'])):
+                    P.add('_BBRepr.repr1: unrecognised shape')
+                    shape = False
+            ok = bool(shape)
+    except Exception as e:     # pragma: no cover
+        P.add('bbrepr introspection failed: %r' % (e,))
+    return stock, table, fill, ok
 
 
 def _find_if(body, pred):
@@ -121,6 +174,7 @@ def extract(ctx):
     vals = ret_expr('values')
     items = ret_expr('items')
     ln = ret_expr('__len__')
+    stock, table, fill, is_reprlib = bbrepr_facts(ctx, tree)
     return [('C18Facts', '_format_t switches, TType pickling tables, Path sequence methods (C18)', [
         ('fmtDunderGuard', 'Bool', dunder),
         ('fmtTupleEmptyParen', 'Bool', empty_paren),
@@ -132,4 +186,9 @@ def extract(ctx):
         ('pathLenExpr', 'String', ln),
         ('pathValuesExpr', 'String', vals),
         ('pathItemsExpr', 'String', items),
+        # reprlib: every int attribute of a stock Repr() is a size limit; the live instance's values
+        ('reprlibLimitNames', 'List String', stock),
+        ('bbreprLimits', 'List (String × Nat)', table),
+        ('bbreprFillvalue', 'String', fill),
+        ('bbreprIsReprlib', 'Bool', is_reprlib),
     ])]
